@@ -18,6 +18,7 @@ RULE = ("for each of the four pairing modules, scalars a, b, a', b' from {0, 1, 
 ASSUMPTIONS = ["points are built by the affine model (vf/model/ec.py) from the published generators",
                "which bilinear map is computed is pinned by C12 (optimized == reference); C05 checks the laws"]
 ENGINE = "hypothesis (algebraic laws)"
+TECHNIQUE = ("property-based testing (Hypothesis) of algebraic laws: bilinearity, additivity, inversion, order r, unit on infinity, refusal of off-curve input")
 _REQ = [f"{law}:{m}" for m in pc.MODULES for law in ("bilinear", "additive", "negation", "order", "infinity", "offcurve")]
 _REQ += ["bilinear:raw_first", "bilinear:scaled", "bilinear:big_scalars", "infinity:rep", "offcurve:other_argument_infinity"]
 REQUIRED_LABELS = {"quick": _REQ, "thorough": _REQ}
